@@ -29,6 +29,9 @@ pub struct Provider {
     pub n_mremap_move: u64,
     /// requests refused because the arena has no room left
     pub n_exhausted: u64,
+    /// placement policy of a run: 0 = drawn per call; 1 = directly below the lowest mapping when
+    /// possible (what Linux's top-down mmap layout does: one growing VMA); 2 = directly above the highest
+    pub policy: u8,
 }
 
 #[derive(Clone, Copy, PartialEq, Eq, Debug)]
@@ -67,6 +70,7 @@ impl Provider {
             n_mremap_grow: 0,
             n_mremap_move: 0,
             n_exhausted: 0,
+            policy: 0,
         }
     }
 
@@ -88,6 +92,7 @@ impl Provider {
         self.n_mremap_grow = 0;
         self.n_mremap_move = 0;
         self.n_exhausted = 0;
+        self.policy = 0;
     }
 
     fn grant_pages(&self, addr: usize, len: usize) {
@@ -203,19 +208,35 @@ impl Provider {
             return neg(EINVAL);
         }
         self.n_mmap += 1;
-        let mut place = match dec.choose(K::Place, 4) {
-            0 | 3 => Place::Isolated,
-            1 => Place::Above,
-            _ => Place::Below,
+        let mut place = match self.policy {
+            1 => Place::Below,
+            2 => Place::Above,
+            _ => match dec.choose(K::Place, 4) {
+                0 | 3 => Place::Isolated,
+                1 => Place::Above,
+                _ => Place::Below,
+            },
         };
         let mut addr = None;
         if place != Place::Isolated && !self.ranges.is_empty() {
-            let i = dec.choose(K::Place, self.ranges.len() as u32) as usize;
+            let i = match self.policy {
+                1 => 0,
+                2 => self.ranges.len() - 1,
+                _ => dec.choose(K::Place, self.ranges.len() as u32) as usize,
+            };
             let (s, e) = self.ranges[i];
             if place == Place::Above && self.is_free(e, len) {
                 addr = Some(e);
             } else if place == Place::Below && s >= len && self.is_free(s - len, len) {
                 addr = Some(s - len);
+            }
+        }
+        if addr.is_none() && self.policy == 1 && self.ranges.is_empty() {
+            // top-down layout: the first mapping sits at the top of the address space
+            let top = (self.base + self.len - len - (64 << 20)) & !(PAGE - 1);
+            if top > self.base && self.is_free(top, len) {
+                place = Place::Isolated;
+                addr = Some(top);
             }
         }
         if addr.is_none() {
